@@ -35,6 +35,15 @@ JOBS["lists-mklist"] = dict(module="MC_Lists", constants={"Slice": "mklist", "Bu
 JOBS["lists-rename"] = dict(module="MC_Lists", constants={"Slice": "rename", "Bug_DropsEmptyTail": "FALSE"}, invariants=LISTS_INV,
                             timeout={"quick": 600, "thorough": 1800})
 
+SOLVER_INV = ["Refines", "Complete", "Terminates", "FreshIsFresh", "NodesAcyclic", "AlphaInvariant", "Emit"]
+SOLVER_PROPS = ["CutCommits", "NoRetryLeftOfCut", "CutIsLocal"]
+SOLVER_CONST = {"Depth": 12, "ReAsks": 2, "MaxSteps": 4000, "Bug_ClauseLoopIgnoresCut": "FALSE",
+                "Bug_OrTailAfterCut": "FALSE", "Bug_NotStaysArmed": "FALSE"}
+for _s in ("andor", "cut", "not", "print", "lists", "alias"):
+    JOBS["solver-" + _s] = dict(module="MC_Solver", constants=dict(SOLVER_CONST, Slice=_s), subst=BIP_SUBST,
+                                invariants=SOLVER_INV, properties=SOLVER_PROPS, constraint="WithinBudget",
+                                timeout={"quick": 1200, "thorough": 3600})
+
 UNIFY_ASSUME = [
     "pairs whose unification needs an occurs check are generated but excluded (counted under excluded_cases)",
     "the universe is bounded: terms of depth <= 2 over 2 atoms, 1 integer, 2 floats, 3 variables, $_, f/1 g/2 h/0, lists of <= 3 elements with and without tail",
@@ -42,6 +51,25 @@ UNIFY_ASSUME = [
 ]
 
 PROPS = {
+    "C01": dict(jobs=["solver-andor", "solver-lists", "solver-alias"], level="model_checking",
+                rule="every program of the slice grammars (base facts + 1-3 clauses whose bodies combine calls, =, ==, conjunction, disjunction, nested and/or; the recursive list programs; the aliasing programs) x queries, each asked until 'no more'; "
+                     "TLC checks that the solution-node machine of Solver.tla refines the declarative search of SLD.tla (Refines) and the real engine must observe the same answers in the same order; solve_all must report them as `$Var = value`",
+                assumptions=["programs whose reference search exceeds the call-depth budget or needs an occurs check are outside the claim (counted under excluded_cases)"]),
+    "C02": dict(jobs=["solver-cut"], level="model_checking",
+                rule="`!` at every position of 2-3 literal conjunctions, disjunctions and their nestings, before/after succeeding, failing, multi-answer and printing goals, in a called predicate, with later clauses that succeed / fail / print, and under a caller; TLC checks CutCommits, NoRetryLeftOfCut, CutIsLocal and Refines on the machine",
+                assumptions=["cut inside not(...) / time(...) is excluded, as the property states"]),
+    "C03": dict(jobs=["solver-not"], level="model_checking",
+                rule="not(...) around calls, conjunctions, disjunctions, unifications, comparisons, printing goals and another not, alone / after / before generators / in a disjunction, x queries with unbound and ground arguments",
+                assumptions=[]),
+    "C04": dict(jobs=["solver-print", "solver-cut", "solver-not"], level="model_checking",
+                rule="print / print_list / nl placed left and right of multi-answer, failing and negated goals; real stdout between successive answers is compared with the reference search's text",
+                assumptions=["only atoms and small integers are printed (given literally or bound); format strings with k markers have k arguments or none"]),
+    "C05": dict(jobs=["solver-not", "solver-cut", "solver-andor", "solver-print", "solver-alias", "solver-lists"], level="model_checking",
+                rule="every program/query of the solver slices, asked 2 more times after the first 'no more' (answers and output)",
+                assumptions=[]),
+    "C11": dict(jobs=["solver-andor", "solver-alias", "solver-lists", "solver-print", "solver-not", "solver-cut"], level="model_checking",
+                rule="every program of the solver slices under two clause-wise renamings generated by the specification (pool 1 reuses the QUERY's variable names in every clause, all clauses sharing names; pool 2 swaps each clause's own names); AlphaInvariant is checked on the reference semantics and every variant is replayed",
+                assumptions=[]),
     "C06": dict(jobs=["unify-laws", "unify-plain", "unify-sess"], level="model_checking",
                 rule="every ordered pair of universe terms x every prior substitution (and every session of 2-3 unifications), enumerated by TLC; "
                      "non-trivial = the Unify machine takes at least one deref/bind/decompose/list step; distinct by (terms, prior)",
@@ -49,7 +77,7 @@ PROPS = {
     "C07": dict(jobs=["unify-laws", "unify-plain"], level="model_checking",
                 rule="every ordered pair x prior of the universe; the implementation is run in both orders (as written and after recreate_variables) and compared with itself and with the model's Symmetric invariant",
                 assumptions=UNIFY_ASSUME),
-    "C08": dict(jobs=["unify-sess", "unify-plain"], level="model_checking",
+    "C08": dict(jobs=["unify-sess", "unify-plain", "solver-alias"], level="model_checking",
                 rule="all sessions of 2-3 unifications over variables/terms of the session universe plus all single unifications under aliasing priors; after every real unify() the returned substitution set is walked with a visited set",
                 assumptions=UNIFY_ASSUME),
     "C09": dict(jobs=["unify-plain", "unify-sess", "unify-laws"], level="model_checking",
@@ -62,7 +90,7 @@ PROPS = {
                 rule="constructor: every element sequence up to length 5 over atoms, numbers, variables, $_, complex terms, empty / nested / tailed lists x vbar, stepped through the make_linked_list machine of Lists.tla; "
                      "engine-built lists: every renamed term vector, append result and include/exclude result of the other slices, projected cell by cell with the well-formedness check",
                 assumptions=["a single-element sequence whose element is a list is outside the documented constructor contract", "parsed lists are checked by the syntax slices (C19)"]),
-    "C10": dict(jobs=["lists-rename", "unify-plain"], level="model_checking",
+    "C10": dict(jobs=["lists-rename", "unify-plain", "solver-andor", "solver-alias"], level="model_checking",
                 rule="every vector of 1-3 terms (clause-shaped: shared and distinct variable names, $_, empty / nested lists, tails, function terms) renamed from two counter values; plus every term pair of the unifier slice renamed and unified",
                 assumptions=["freshness in the middle of a search is checked by the solver trace slices"]),
     "C16": dict(jobs=["bip-append"], level="model_checking",
